@@ -192,6 +192,16 @@ def run_case(case, reports=False, keep_objects=False):
             args.append("--logging-clear-handlers")
         if cfg.get("wip"):
             args.append("--wip")
+        if cfg.get("names") is not None:
+            # --name: one anchored pattern per selected scenario (names taken from a parse of the rendered texts)
+            name_of = {}
+            for fn, text in R.files:
+                for sc in parse_feature(text, filename=fn).walk_scenarios(with_outlines=False):
+                    name_of[R.by_loc.get((fidx_of_file[fn], sc.line), 0)] = sc.name
+            for sid in cfg["names"]:
+                args += ["--name", "^%s$" % re.escape(name_of[sid])]
+            if not cfg["names"]:
+                args += ["--name", "^no such scenario$"]
         try:
             config = Configuration(command_args=args, load_config=False)
         except SystemExit:
